@@ -48,6 +48,18 @@ type pendingCut struct {
 type nameRef struct {
 	V      Val
 	IsAddr bool
+	Typ    types.Type // static type of the named variable (nil when unknown)
+}
+
+// debugRefType: the type of the source variable a DebugRef names (the pointee when it refers to its address)
+func debugRefType(x *ssa.DebugRef) types.Type {
+	t := x.X.Type()
+	if x.IsAddr {
+		if p, ok := t.Underlying().(*types.Pointer); ok {
+			return p.Elem()
+		}
+	}
+	return t
 }
 
 type deferred struct {
@@ -778,6 +790,30 @@ func (ex *Exec) globalCell(st *State, name string, t types.Type) *Cell {
 					}
 				}
 			}
+			// pointers to structs: the pointee's integer fields were read from the real initialisers ("Name->field")
+			if pv, ok := gv.(PtrV); ok && pv.K == PCell {
+				// one pointee cell per global, whichever path materialises it first
+				if pc, have := ex.globalCells[name+"->*"]; have && pc != pv.Cell {
+					st.Cells[pc] = st.Cells[pv.Cell]
+					delete(st.Cells, pv.Cell)
+					pv.Cell = pc
+					gv = pv
+				} else {
+					ex.globalCells[name+"->*"] = pv.Cell
+				}
+				if sv, ok := st.Cells[pv.Cell].(StructV); ok {
+					stt := sv.Typ.Underlying().(*types.Struct)
+					nf := append([]Val{}, sv.F...)
+					for i := 0; i < stt.NumFields(); i++ {
+						if cv, ok := ex.P.Consts[name+"->"+stt.Field(i).Name()]; ok {
+							if bi, ok := new(big.Int).SetString(cv, 10); ok {
+								nf[i] = Scalar{ex.intConst(bi, stt.Field(i).Type())}
+							}
+						}
+					}
+					st.Cells[pv.Cell] = StructV{Typ: sv.Typ, F: nf}
+				}
+			}
 			// structs of integers whose field values were read from the real initialisers
 			if sv, ok := gv.(StructV); ok {
 				stt := sv.Typ.Underlying().(*types.Struct)
@@ -842,7 +878,7 @@ func (ex *Exec) Run(st *State) {
 				phi := fr.Block.Instrs[i].(*ssa.Phi)
 				fr.Vals[phi] = newVals[i]
 				if phi.Comment != "" {
-					fr.Names[phi.Comment] = nameRef{V: newVals[i]}
+					fr.Names[phi.Comment] = nameRef{V: newVals[i], Typ: phi.Type()}
 				}
 			}
 			fr.Idx = n
@@ -973,8 +1009,15 @@ func (ex *Exec) fnSuffix(fr *Frame) string {
 
 func (ex *Exec) contractFor(fn *ssa.Function) *Contract {
 	for f := fn; f != nil; f = f.Parent() {
+		if f == ex.Fn && ex.C != nil {
+			return ex.C
+		}
 		if c, ok := ex.P.CS.Funcs[f.String()]; ok {
 			return c
+		}
+		// inlined function that only has instance contracts: the loop clauses of any instance apply
+		if insts := ex.P.CS.Instances[f.String()]; len(insts) > 0 {
+			return ex.P.CS.Funcs[insts[0]]
 		}
 	}
 	return nil
@@ -986,9 +1029,9 @@ func (ex *Exec) step(st *State, fr *Frame, ins ssa.Instruction) bool {
 	case *ssa.DebugRef:
 		if id, ok := x.Expr.(*ast.Ident); ok {
 			if v, have := fr.Vals[x.X]; have {
-				fr.Names[id.Name] = nameRef{V: v, IsAddr: x.IsAddr}
+				fr.Names[id.Name] = nameRef{V: v, IsAddr: x.IsAddr, Typ: debugRefType(x)}
 			} else if _, isC := x.X.(*ssa.Const); isC {
-				fr.Names[id.Name] = nameRef{V: ex.val(fr, x.X, st), IsAddr: false}
+				fr.Names[id.Name] = nameRef{V: ex.val(fr, x.X, st), IsAddr: false, Typ: x.X.Type()}
 			}
 		}
 	case *ssa.Alloc:
@@ -1134,6 +1177,12 @@ func (ex *Exec) step(st *State, fr *Frame, ins ssa.Instruction) bool {
 			// one path per failure kind the contract mentions, and one for "anything else"
 			var cands []string
 			seen := map[string]bool{}
+			if iv.Sym.PanicKind != "" {
+				// an error value handed back by a callee whose contract names the failure kind it stands for
+				// (option errorkind=K, e.g. errors of the host's random source): re-raising it is a failure
+				// of that kind, whatever its Go type
+				return ex.doPanic(st, &PanicInfo{Kind: iv.Sym.PanicKind, Val: v})
+			}
 			for _, f := range ex.C.Fails {
 				for _, k := range f.Kinds {
 					if !seen[k] {
@@ -1562,6 +1611,13 @@ func (ex *Exec) valEq(st *State, a, b Val, t types.Type) *Term {
 		}
 		if x.Conc == nil && x.Sym == nil {
 			return ex.isNilIface(y)
+		}
+		if x.Conc != nil && y.Conc != nil {
+			// two boxed concrete values: equal iff same dynamic type and equal payloads
+			if !types.Identical(x.Conc, y.Conc) {
+				return False
+			}
+			return ex.valEq(st, x.Payload, y.Payload, x.Conc)
 		}
 	case SliceV:
 		y := b.(SliceV)
